@@ -10,6 +10,7 @@ import astropy.units as u
 import dask.array as da
 import pulsarbat as pb
 from harness.common import qlit, zlit, listlit, float_lit
+from harness.common import asked_before
 from harness import exact as X
 
 VFILES = ['Lib/PySlice.v', 'Lib/Dft.v', 'Lib/DftC.v', 'Lib/F64.v', 'Model/Shift.v', 'Proofs/ShiftProofs.v', 'Gen/GenShift.v', 'Proofs/ShiftGen.v', 'Proofs/ShiftC.v', 'Proofs/SnippetC.v', 'Props/C03.v']
@@ -152,6 +153,8 @@ def run(ctx):
         if any(a == 1 and b != 1 for a, b in zip(sh, ss)) or len(sh) < len(ss):
             ctx.count('broadcast_needed')
         err = None
+        if asked_before(ctx, rng, lambda: pb.time_shift(z, arg), lambda: pb.time_shift(z, arg, crop=True), lambda: pb.time_shift(z, 0.5)):
+            inp['asked_before'] = True
         try:
             y = pb.time_shift(z, arg)
             yc = pb.time_shift(z, arg, crop=True)
